@@ -1,0 +1,12 @@
+//go:build verif
+
+package ast
+
+// Read-only views of the lexer's mode flags for the verification harness
+// (built only with -tags verif; nothing here changes behaviour).
+
+// VerifExpectSymbol reports whether the next token must be a chord symbol (after `_`).
+func (lex *LexScanner) VerifExpectSymbol() bool { return lex.expectSymbol }
+
+// VerifExpectMetadata reports whether the lexer is inside `{...}` (key=value mode).
+func (lex *LexScanner) VerifExpectMetadata() bool { return lex.expectMetadata }
